@@ -89,7 +89,8 @@ class Run:
         matches iff all of its `match` tags are present (DESIGN §4 rule 7)."""
         tags = set(tags)
         for k in self.known:
-            if set(k["match"]) <= tags:
+            # `match`: all tags present; `match_any` (optional): additionally one of the listed tag sets present
+            if set(k["match"]) <= tags and (not k.get("match_any") or any(set(alt) <= tags for alt in k["match_any"])):
                 self.known_hits.setdefault(k["key"], [0, k["what"]])[0] += 1
                 return False
         self.violations.append((what, replay, sorted(tags)))
